@@ -87,4 +87,135 @@ theorem conc_pos (cfg : Cfg) : 1 ≤ conc expected cfg := by
   simp only [if_true]
   split <;> omega
 
+
+/-! ### the expected skeleton, field by field -/
+
+@[simp] theorem exp_clampConc : expected.clampConc = true := rfl
+@[simp] theorem exp_errsCap : expected.errsCap = .lenJobs := rfl
+@[simp] theorem exp_procCap : expected.procCap = .concurrency := rfl
+@[simp] theorem exp_selAcquire : expected.selAcquire = true := rfl
+@[simp] theorem exp_selRecvErr : expected.selRecvErr = true := rfl
+@[simp] theorem exp_wait : expected.waitBeforeEarlyReturn = true := rfl
+@[simp] theorem exp_add : expected.addBeforeGo = true := rfl
+@[simp] theorem exp_ops : expected.workerOps = [.pp, .write, .send, .done, .release] := rfl
+@[simp] theorem exp_wg : expected.writeGuarded = true := rfl
+@[simp] theorem exp_fw : expected.finalWait = true := rfl
+@[simp] theorem exp_fr : expected.finalRecv = .nonblocking := rfl
+
+theorem forall_set {P Q : Nat → Worker → Prop} {ws : List Worker} {k : Nat} {w w' : Worker}
+    (_hk : ws[k]? = some w) (hP : ∀ j x, ws[j]? = some x → P j x)
+    (hne : ∀ j x, j ≠ k → P j x → Q j x) (hw : Q k w') :
+    ∀ j x, (ws.set k w')[j]? = some x → Q j x := by
+  intro j x hx
+  rw [List.getElem?_set] at hx
+  split at hx
+  · rename_i hkj
+    subst hkj
+    split at hx
+    · injection hx with hx; subst hx; exact hw
+    · contradiction
+  · rename_i hkj
+    exact hne j x (fun e => hkj e.symm) (hP j x hx)
+
+theorem wok_done_send {cfg : Cfg} {k : Nat} {w : Worker} (h : WOk cfg k w) (hd : doneC w = 0) : sendC w = 0 := by
+  obtain ⟨_, c0, _, h⟩ := h
+  rcases h with ⟨ho, _⟩ | ⟨ho, _⟩ | ⟨ho, _⟩ | ⟨ho | ho | ho, _⟩ <;> simp [doneC, sendC, ho] at hd ⊢
+
+/-! ### dispatcher transitions preserve the invariant -/
+
+theorem inv_acquire {cfg : Cfg} {s s' : State} (I : Inv cfg s)
+    (h : stepAcquire expected cfg s = some s') : Inv cfg s' := by
+  unfold stepAcquire at h
+  repeat' split at h
+  all_goals (try (simp at h))
+  all_goals (try (simp at *; done))
+  rename_i hc _ hp
+  obtain ⟨hd, hi⟩ := hc
+  subst h
+  exact { I with
+    idxLt := fun _ => hi
+    idxEq := by simp
+    proc := by have := I.proc; simp [hd] at this ⊢; omega
+    wgc := by have := I.wgc; simp [hd] at this ⊢; omega
+    errRecvGen := by simp
+    notLost := by have := I.notLost; simp [hd] at this ⊢; exact this
+    retNone := by have := I.retNone; simp [hd] at this ⊢; exact this
+    quiet := by simp }
+
+/-! ### inversion of the dispatcher transitions -/
+
+theorem stepRecvErr_inv {cfg : Cfg} {s s' : State} (h : stepRecvErr expected cfg s = some s') :
+    ∃ e es, s.dpc = .loop ∧ s.idx < cfg.jobs.length ∧ s.errs = e :: es ∧
+      s' = { s with dpc := .errRecv e, errs := es } := by
+  unfold stepRecvErr at h
+  split at h
+  · rename_i hc
+    split at h
+    · contradiction
+    · rename_i e es he
+      injection h with h
+      exact ⟨e, es, hc.1, hc.2.1, he, h.symm⟩
+  · contradiction
+
+theorem stepAdd_inv {s s' : State} (h : stepAdd expected s = some s') :
+    s.dpc = .acquired ∧ s' = { s with dpc := .added, wg := s.wg + 1 } := by
+  unfold stepAdd at h
+  split at h
+  · rename_i hd
+    injection h with h
+    exact ⟨hd, by simp at h; exact h.symm⟩
+  · contradiction
+
+theorem stepSpawn_inv {cfg : Cfg} {s s' : State} (h : stepSpawn expected cfg s = some s') :
+    ∃ p c, s.dpc = .added ∧ cfg.jobs[s.idx]? = some (p, c) ∧
+      s' = { s with dpc := .loop, idx := s.idx + 1,
+                    workers := s.workers ++ [{ id := s.idx, path := p, content := c, failed := false,
+                                               ops := [.pp, .write, .send, .done, .release] }] } := by
+  unfold stepSpawn at h
+  split at h
+  · rename_i hd
+    split at h
+    · contradiction
+    · rename_i p c hj
+      injection h with h
+      exact ⟨p, c, hd, hj, by simp at h; exact h.symm⟩
+  · contradiction
+
+theorem stepEarlyRet_inv {s s' : State} (h : stepEarlyRet expected s = some s') :
+    ∃ e, s.dpc = .errRecv e ∧ s.wg = 0 ∧ s' = { s with dpc := .returned, ret := some (some e) } := by
+  unfold stepEarlyRet at h
+  split at h
+  · rename_i e he
+    split at h
+    · rename_i hw
+      injection h with h
+      exact ⟨e, he, hw rfl, h.symm⟩
+    · contradiction
+  · contradiction
+
+theorem stepFinalWait_inv {cfg : Cfg} {s s' : State} (h : stepFinalWait expected cfg s = some s') :
+    s.dpc = .loop ∧ cfg.jobs.length ≤ s.idx ∧ s.wg = 0 ∧ s' = { s with dpc := .finalRecv } := by
+  unfold stepFinalWait at h
+  split at h
+  · rename_i hc
+    injection h with h
+    exact ⟨hc.1, hc.2.1, hc.2.2 rfl, h.symm⟩
+  · contradiction
+
+theorem stepFinalRecv_inv {s s' : State} (h : stepFinalRecv expected s = some s') :
+    s.dpc = .finalRecv ∧
+      ((s.errs = [] ∧ s' = { s with dpc := .returned, ret := some none }) ∨
+       (∃ e es, s.errs = e :: es ∧ s' = { s with dpc := .returned, ret := some (some e), errs := es })) := by
+  unfold stepFinalRecv at h
+  split at h
+  · rename_i hd
+    refine ⟨hd, ?_⟩
+    split at h
+    · rename_i he; injection h with h; exact Or.inl ⟨he, h.symm⟩
+    · rename_i e es _ he; injection h with h; exact Or.inr ⟨e, es, he, h.symm⟩
+    · contradiction
+    · rename_i hb _; simp at hb
+    · rename_i hb; simp at hb
+  · contradiction
+
 end AsyncPP
